@@ -41,6 +41,7 @@
 #include <stdint.h>
 #include <string.h>
 #include <signal.h>
+#include <fcntl.h>
 #include <errno.h>
 #include <poll.h>
 #include <unistd.h>
@@ -230,9 +231,12 @@ static int h_pthread_join(pthread_t t, void **ret)
 	return 0;
 }
 static u64 garbage_seed = 0x1234;
+static int fail_next_malloc;	/* fault injection: the next allocation of the library fails once */
 static void *h_malloc(size_t sz)
 {
-	u64 *p = malloc(sz);
+	u64 *p;
+	if (fail_next_malloc) { fail_next_malloc = 0; errno = ENOMEM; return NULL; }
+	p = malloc(sz);
 	size_t i;
 	for (i = 0; i < sz / sizeof(u64); i++) {
 		garbage_seed = garbage_seed * 6364136223846793005ULL + 1442695040888963407ULL;
@@ -629,6 +633,27 @@ static void top_reader_event(void)
 	if (cs_begin[i]) reader_end(i, ""); else reader_begin(i, "");
 }
 
+/* Fault probe (oracle only, nothing reaches the driver: stdout is parked on /dev/null meanwhile): the allocation of the per-thread
+ * ring fails in rcu_defer_register_thread().  The call must report the failure and leave everything as it was: no mutex held,
+ * thread not registered, reclaimer not started - so that other threads (and a retry) can still register and unregister. */
+static void probe_register_enomem(int t)
+{
+	int rc, fd, nul, was_running = thread_running, s0 = ev_start;
+	fflush(stdout);
+	fd = dup(1); nul = open("/dev/null", O_WRONLY); dup2(nul, 1);
+	fail_next_malloc = 1;
+	in_op = t; h_cur = t;
+	rc = rcu_defer_register_thread();
+	in_op = -1;
+	fail_next_malloc = 0;
+	fflush(stdout); dup2(fd, 1); close(fd); close(nul);
+	if (rc == 0) { fprintf(stderr, "ORACLE register reported success although the allocation of its queue failed\n"); oracle_fail = 1; }
+	if (lockT || lockD) { fprintf(stderr, "ORACLE rcu_defer_register_thread() returned %d (allocation failure) with %s still held: every later register / unregister blocks for ever\n", rc, lockT ? "defer_thread_mutex" : "rcu_defer_mutex"); oracle_fail = 1; }
+	if (registered(t)) { fprintf(stderr, "ORACLE thread registered although register returned %d\n", rc); oracle_fail = 1; }
+	if (thread_running != was_running || ev_start != s0) { fprintf(stderr, "ORACLE a failed registration started the reclaimer thread\n"); oracle_fail = 1; }
+	if (oracle_fail) die_oracle();
+}
+
 int main(int argc, char **argv)
 {
 	unsigned long seed = argc > 1 ? strtoul(argv[1], 0, 0) : 1;
@@ -668,6 +693,7 @@ int main(int argc, char **argv)
 		printf("init %d 0x%lx\n", t, (unsigned long)b);
 	}
 
+	probe_register_enomem(0);
 	if (mode == 2 || seed % 5 == 0) {
 		/* directed: the history of DESIGN.md section 5 item 2, with both ways last_head gets set */
 		do_reg(0);
